@@ -282,8 +282,9 @@ impl HetTable {
                 "HET find_file_with_collision_info: checking index {index}, stored_hash=0x{stored_hash:02X}, looking for=0x{name_hash1:02X}"
             );
 
-            // Check for empty slot (0xFF = HET_TABLE_EMPTY)
-            if stored_hash == 0xFF {
+            // Check for a free slot (0x00 = HET_ENTRY_FREE). 0xFF is a name hash like
+            // any other: name hashes have their top bit set and span 0x80..=0xFF
+            if stored_hash == 0x00 {
                 log::debug!(
                     "HET find_file_with_collision_info: hit empty slot at index {index}, search complete"
                 );
